@@ -2,7 +2,7 @@
 PROPS = {
     "C03_float": dict(
         coq=["Props.C03_float"],
-        fams=[("fam_floatq", "gen_valid", 260, 20000), ("fam_floatq", "gen_f9", 120, 10000)],
+        fams=[("fam_floatq", "gen_valid", 260, 10000), ("fam_floatq", "gen_f9", 120, 5000)],
         anchors=["src/stream/model/categorical.rs", "src/stream/model/categorical/contiguous.rs",
                  "src/stream/model/categorical/lazy_contiguous.rs", "src/stream/model/categorical/non_contiguous.rs",
                  "src/stream/model/categorical/lookup_contiguous.rs",
@@ -25,7 +25,7 @@ PROPS = {
     ),
     "C05_float": dict(
         coq=["Props.C05_float"],
-        fams=[("fam_floatq", "gen_lazy", 220, 20000), ("fam_floatq", "gen_valid", 60, 8000)],
+        fams=[("fam_floatq", "gen_lazy", 220, 8000), ("fam_floatq", "gen_valid", 60, 8000)],
         anchors=["src/stream/model/categorical.rs", "src/stream/model/categorical/contiguous.rs",
                  "src/stream/model/categorical/lazy_contiguous.rs"],
         rule="eager and lazy constructor both returned Ok and >= 1 quantile was decoded with the lazy model",
@@ -44,7 +44,7 @@ PROPS = {
     ),
     "C19_float": dict(
         coq=["Props.C19_float"],
-        fams=[("fam_floatq", "gen_malformed", 420, 30000), ("fam_floatq", "gen_valid", 80, 5000)],
+        fams=[("fam_floatq", "gen_malformed", 420, 15000), ("fam_floatq", "gen_valid", 80, 5000)],
         anchors=["src/stream/model/categorical.rs", "src/stream/model/categorical/contiguous.rs",
                  "src/stream/model/categorical/lazy_contiguous.rs", "src/stream/model/categorical/non_contiguous.rs",
                  "src/stream/model/categorical/lookup_contiguous.rs",
